@@ -586,7 +586,9 @@ tx_outs:\n{tx_outs}
                 hash_type=hash_type,
             )
         elif script_pubkey.is_p2tr():
-            if len(tx_in.witness) > 1:
+            # the annex, if present, does not count towards a script path spend
+            num_items = len(tx_in.witness) - (1 if tx_in.witness.has_annex() else 0)
+            if num_items > 1:
                 ext_flag = 1
             else:
                 ext_flag = 0
